@@ -345,7 +345,14 @@ def corner_programs():
     E = [HDR[:], ["r1", "", "5", "a", "b"], ["r2", "3", "", "a", "b"], ["r3", "", "", "q", "b"], ["r4", "2", "2", "a", "q"], ["r5", "10", "", "a", "b"]]
     Z0 = [HDR[:], ["r1", "0", "0", "a", "b"], ["r2", "3", "0", "a", "b"], ["r3", "0", "7", "q", "b"], ["r4", "2", "2", "a", "q"]]
     A = [HDR[:], ["r1", "1", "2", "a", "b", "z"], ["r2", "1", "2", "a", "b", "z", "extra"], ["r3", "1", "2", "a", "b"], ["r4", "1", "2", "a", " ", "z"], ["r5", "0", "2", "a", "b", "0"]]
+    # records that lack their numeric cells: a missing cell is None — not above / below anything, 0 to add() and int(), pushed as None
+    S = [HDR[:], ["r1", "4"], ["r2"], ["r3", "2", "2", "a", "b"], ["r4", "0"]]
     return [
+        P([("lt(#m, 1)", "(CB (BCmp Lt (NHdr 2) (NLit 1)))")], rows=S),
+        P([("gt(#m, 1)", "(CB (BCmp Gt (NHdr 2) (NLit 1)))"), ("gte(1, #m)", "(CB (BCmp Gte (NLit 1) (NHdr 2)))")], rows=S, AND=False),
+        P([("above(add(#n, #m), 3)", "(CB (BCmp Gt (NAdd (NHdr 1) (NHdr 2)) (NLit 3)))"), ("@v1 = add(#m, 1)", "(CAct (AssignN 1 (NAdd (NHdr 2) (NLit 1))))")], rows=S),
+        P([("gt(int(#m), 1)", "(CB (BCmp Gt (NInt (NHdr 2)) (NLit 1)))"), ('push("k1", #m)', "(CAct (PushN 1 (NHdr 2)))")], rows=S, AND=False),
+        P([("empty(#m)", "(CB (BEmpty 2%nat))"), ("@v2 = #m", "(CAct (AssignN 2 (NHdr 2)))")], rows=S),
         # all() / missing(): as many cells as headers, none blank — a longer record, a shorter one, a blank cell
         P([("all()", f"(CB (BAllCells {len(HDR)}%nat))")], rows=A),
         P([("missing()", f"(CB (BNot (BAllCells {len(HDR)}%nat)))")], rows=A),
